@@ -562,6 +562,7 @@ _KIND_TEXT = {
     'block/dup': 'IF block (a branch assigns the same symbol twice)',
     'nested': 'nested IF',
     'logif': 'logical IF',
+    'seq': 'sequence of statements assigning one symbol (assignment, logical IF, IF blocks with and without ELSE)',
     'expr': 'arithmetic expression',
     'cond': 'logical condition without parentheses',
     'cond/par': 'logical condition with parenthesised logical sub-expressions',
@@ -719,6 +720,56 @@ def gen_logif_programs(tier):
                         if 'VB + 1' == r2 and len(predef) < 2 and t1 != 'VB':
                             continue
                         yield ('logif', one + [f'IF ({c2}) {t2} = {r2}'])
+
+
+# sequences of statements that assign the same symbol ------------------------------------------------
+
+# per position: (condition of the statement, second condition for its ELSE IF branch)
+_SEQ_CONDS = (('WGT.GT.50', 'AGE.GT.30'), ('AGE.GT.30', 'WGT.GT.70'), ('WGT.GT.70', 'AGE.LT.30'),
+              ('WGT.LT.50', 'AGE.GT.30'))
+_SEQ_FORMS = ('assign', 'update', 'logif', 'logif/update', 'logif/symcond', 'block', 'block/else',
+              'block/elseif', 'block/elseif/else', 'read')
+
+
+def _seq_statement(form, pos):
+    """source lines of the statement of the given form at position pos of a sequence; every form but 'read'
+    assigns VA (and only VA), 'read' copies the current value of VA into VB"""
+    c, d = _SEQ_CONDS[pos]
+    k = 100 * (pos + 1)
+    if form == 'assign':
+        return [f'VA = {k + 1}']
+    if form == 'update':
+        return [f'VA = VA*2 + {k + 2}']
+    if form == 'logif':
+        return [f'IF ({c}) VA = {k + 3}']
+    if form == 'logif/update':
+        return [f'IF ({c}) VA = VA + {k + 4}']
+    if form == 'logif/symcond':
+        return [f'IF (VA.GT.{k}) VA = {k // 2 + 5}']
+    if form == 'block':
+        return [f'IF ({c}) THEN', f'  VA = {k + 6}', 'ENDIF']
+    if form == 'block/else':
+        return [f'IF ({c}) THEN', f'  VA = {k + 7}', 'ELSE', f'  VA = {k + 8}', 'ENDIF']
+    if form == 'block/elseif':
+        return [f'IF ({c}) THEN', f'  VA = {k + 9}', f'ELSE IF ({d}) THEN', f'  VA = {k + 10}', 'ENDIF']
+    if form == 'block/elseif/else':
+        return [f'IF ({c}) THEN', f'  VA = {k + 11}', f'ELSE IF ({d}) THEN', f'  VA = {k + 12}', 'ELSE',
+                f'  VA = {k + 13}', 'ENDIF']
+    if form == 'read':
+        return [f'VB = VA + {k + 14}']
+    raise ValueError(form)
+
+
+def gen_seq_programs(tier):
+    """every sequence of <=3 (thorough: <=4) statements, each in one of the forms of _SEQ_FORMS: what a
+    conditional statement leaves behind when its condition is false depends on how (and whether) the symbol
+    was assigned by the statements before it"""
+    for n in range(1, (4 if tier == 'thorough' else 3) + 1):
+        for forms in itertools.product(_SEQ_FORMS, repeat=n):
+            lines = []
+            for pos, form in enumerate(forms):
+                lines += _seq_statement(form, pos)
+            yield ('seq', lines)
 
 
 # expression trees --------------------------------------------------------------------------------
@@ -896,6 +947,8 @@ _GENERATORS = {
     'block': gen_block_programs, 'nested': gen_nested_programs, 'logif': gen_logif_programs,
     'expr': gen_expr_programs, 'cond': gen_cond_programs, 'func': gen_func_programs,
 }
+# generators added later: their programs are enumerated (and batched) after all programs of _GENERATORS
+_GENERATORS_LATER = {'seq': gen_seq_programs}
 
 
 def _speedup():
@@ -1054,6 +1107,11 @@ def bounded_abbreviated_code(tier='quick'):
         n0 = len(programs)
         programs.extend(gen(tier))
         counts[gname] = len(programs) - n0
+    nfirst = len(programs)
+    for gname, gen in _GENERATORS_LATER.items():
+        n0 = len(programs)
+        programs.extend(gen(tier))
+        counts[gname] = len(programs) - n0
 
     fails = {}
     bad = _selfcheck_expr_renderer(tier)
@@ -1064,7 +1122,8 @@ def bounded_abbreviated_code(tier='quick'):
             'replay_fn': 'bounded_abbreviated_code_replay'}
 
     batch = 60
-    jobs = [programs[i : i + batch] for i in range(0, len(programs), batch)]
+    jobs = [programs[i : min(i + batch, nfirst)] for i in range(0, nfirst, batch)]
+    jobs += [programs[i : i + batch] for i in range(nfirst, len(programs), batch)]
     results = _run_pool(_check_programs, jobs)
 
     nontrivial = 0
@@ -1074,7 +1133,7 @@ def bounded_abbreviated_code(tier='quick'):
             nontrivial += bool(nt)
             kind, lines = job[i]
             for clause, detail in fl:
-                fid = FID_PARSE_TREE if kind.split('/')[0] in ('block', 'nested', 'logif') else FID_EXPR
+                fid = FID_PARSE_TREE if kind.split('/')[0] in ('block', 'nested', 'logif', 'seq') else FID_EXPR
                 key = (fid, clause)
                 size = (len(lines), sum(len(x) for x in lines), lines)
                 also.add(key, {'kind': kind, 'lines': lines, 'clause': clause})
@@ -1102,8 +1161,11 @@ def bounded_abbreviated_code(tier='quick'):
             f'{" plus all operator skeletons of depth 3 with rotating operands" if depth == 3 else ""} '
             f'[{counts["expr"]}]; all conditions with <=3 relational atoms (optionally .NOT.) joined by '
             f'.AND./.OR. without parentheses, all 12 relational spellings [{counts["cond"]}]; 39 intrinsic/'
-            f'protected functions x 10 arguments [{counts["func"]}]; evaluated on WGT in {{40,60,80}} x AGE '
-            f'in {{20,50}}'),
+            f'protected functions x 10 arguments [{counts["func"]}]; all sequences of <={4 if tier == "thorough" else 3} '
+            f'statements in {len(_SEQ_FORMS)} forms that assign one symbol (assignment, self-update, logical IF with '
+            f'constant / self-update / condition on the symbol, IF block without ELSE, with ELSE, with ELSE IF, '
+            f'with ELSE IF and ELSE) or copy its current value into a second symbol [{counts["seq"]}]; evaluated on '
+            f'WGT in {{40,60,80}} x AGE in {{20,50}}'),
         'samples': [' | '.join(programs[i][1]) for i in (0, len(programs) // 2, len(programs) - 1)],
         'fails': sorted(fails.values(), key=lambda f: (f['fid'], f['clause'])),
     }
